@@ -414,6 +414,12 @@ func c20MaterializeLog(l c20LogSpec, dir string, now time.Time) error {
 		extra = append(extra, c20Witness("cosigner.c20.test", false).S1)
 	}
 	cp := c19SignLogCheckpoint(signKey, signOrigin, l.Size, root, ts, extra...)
+	if d, ok := c20Get(l.Defects, "other-origin"); ok && d.Variant%2 == 1 {
+		// only the origin line of the body differs: the signature line still carries the log's own name and key hash,
+		// and the RFC 6962 signature (size, root, timestamp) is genuine
+		cp = c19SignLogCheckpoint(signKey, origin, l.Size, root, ts, extra...)
+		cp = append([]byte(signOrigin), cp[len(origin):]...)
+	}
 	if d, ok := c20Get(l.Defects, "truncated"); ok {
 		cp = c20Truncate(cp, d.Variant)
 	}
